@@ -347,6 +347,24 @@ theorem lr_tie_shape (cfg : Cfg) (votes : Votes) (n : Nat) (prev maxS : IMap) (T
       (lrBest (cfg.quota (sumVals votes) n) cfg.acceptEqual n prev maxS votes).count (Slot.tie T) = r - cntGt rems t :=
   tie_mem_getNBest _ _ _ hT
 
+/-- … and in the returned dict the `Tie` object (a frozenset: its members in canonical order) holds exactly those
+    places. -/
+theorem lr_tie_seats (cfg : Cfg) (votes : Votes) (n : Nat) (prev maxS : IMap) (h : Plain cfg votes n prev)
+    (res : Sel) (hres : largestRemainder cfg votes n prev maxS = .ok res) (T : List Cand)
+    (hT : Slot.tie T ∈ lrBest (cfg.quota (sumVals votes) n) cfg.acceptEqual n prev maxS votes) :
+    getK res (mkTie T) 0 =
+      ((lrBest (cfg.quota (sumVals votes) n) cfg.acceptEqual n prev maxS votes).count (Slot.tie T) : Int) := by
+  rw [lr_whole_then_remainders cfg votes n prev maxS h] at hres
+  injection hres with hres
+  subst hres
+  rw [getK_foldl_incK]
+  unfold mkTie
+  rw [getK_wholeSel_tie]
+  have := count_slotKey_tie _ _ T hT
+  unfold mkTie at this
+  unfold lrBest
+  rw [this]; simp
+
 /-- **Total.**  If the remainder seats do not outnumber the eligible parties, the result together with the
     previous gains fills the house exactly. -/
 theorem lr_total (cfg : Cfg) (votes : Votes) (n : Nat) (prev maxS : IMap) (h : Plain cfg votes n prev)
@@ -365,45 +383,85 @@ theorem lr_total (cfg : Cfg) (votes : Votes) (n : Nat) (prev maxS : IMap) (h : P
   unfold totalAwarded at this ⊢
   omega
 
-/-! ## 4. exact quotas fill the house; the Hare quota rule -/
+/-- **Fewer eligible parties than open seats.**  Outside the hypothesis of `lr_total` every eligible party takes
+    exactly one remainder seat and the house stays short: the total is `awarded + #eligible`. -/
+theorem lr_short (cfg : Cfg) (votes : Votes) (n : Nat) (prev maxS : IMap) (h : Plain cfg votes n prev)
+    (hshort : (lrRems (cfg.quota (sumVals votes) n) cfg.acceptEqual prev maxS votes).length ≤
+      (remSeats (cfg.quota (sumVals votes) n) cfg.acceptEqual n prev votes).toNat)
+    (res : Sel) (hres : largestRemainder cfg votes n prev maxS = .ok res) :
+    sumK res + sumI prev = totalAwarded (cfg.quota (sumVals votes) n) cfg.acceptEqual prev votes +
+        (lrRems (cfg.quota (sumVals votes) n) cfg.acceptEqual prev maxS votes).length ∧
+      ∀ p ∈ votes, eligible (cfg.quota (sumVals votes) n) cfg.acceptEqual prev maxS p = true →
+        Slot.cand p.1 ∈ lrBest (cfg.quota (sumVals votes) n) cfg.acceptEqual n prev maxS votes := by
+  have hbest : lrBest (cfg.quota (sumVals votes) n) cfg.acceptEqual n prev maxS votes =
+      (sortDesc (lrRems (cfg.quota (sumVals votes) n) cfg.acceptEqual prev maxS votes)).map
+        (fun p => Slot.cand p.1) := getNBest_all _ _ hshort
+  constructor
+  · rw [lr_whole_then_remainders cfg votes n prev maxS h] at hres
+    injection hres with hres
+    subst hres
+    rw [sumK_foldl_incK, hbest, List.length_map, sortDesc_length]
+    unfold totalAwarded
+    omega
+  · intro p hp hel
+    rw [hbest]
+    exact List.mem_map.mpr ⟨_, mem_sortDesc.mpr (mem_lrRems_of hp hel), rfl⟩
 
-/-- facts about an exact quota `q = V / (n + k)` (`k = 0` Hare, `1` Hagenbach-Bischoff, `2` Imperiali): it is
-    positive, the shares `v/q` add up to `n + k`, and the whole quotas stay below that -/
-private theorem exact_quota_facts (q : Rat) (ae : Bool) (k : Nat) (votes : Votes) (n : Nat)
-    (hqe : q = sumVals votes / ((n : Rat) + k)) (hv : ∀ p ∈ votes, 0 ≤ p.2) (hV : 0 < sumVals votes) (hn : 1 ≤ n) :
-    0 < q ∧ (votes.map (·.2)).sum / q = (n : Rat) + k ∧
-      (votes.map (fun p => wholeQ q ae p.2)).sum ≤ (n : Int) + k ∧
-      (∀ p ∈ votes, wholeQ q ae p.2 ≤ (n : Int) + k) ∧
-      ((n : Int) + k) - (votes.map (fun p => wholeQ q ae p.2)).sum ≤ votes.length := by
-  have hnk : (0 : Rat) < (n : Rat) + k := by positivity
-  have hq : 0 < q := by rw [hqe]; exact div_pos hV hnk
-  have hVq : (votes.map (·.2)).sum / q = (n : Rat) + k := by
-    rw [← sumVals_eq, hqe, div_div_eq_mul_div, mul_comm, mul_div_assoc, div_self (ne_of_gt hV), mul_one]
-  have hs := sum_rems q ae votes
-  rw [hVq] at hs
-  have hb := sum_unit_bounds (votes.map (fun p => p.2 / q - (wholeQ q ae p.2 : Rat)))
-    (by
-      intro x hx
-      obtain ⟨p, _, rfl⟩ := List.mem_map.mp hx
-      exact rem_bounds hq ae)
-  rw [hs, List.length_map] at hb
-  refine ⟨hq, hVq, ?_, ?_, ?_⟩
-  · have : (((votes.map (fun p => wholeQ q ae p.2)).sum : Int) : Rat) ≤ (((n : Int) + k : Int) : Rat) := by
-      push_cast; linarith [hb.1]
-    exact_mod_cast this
-  · intro p hp
-    have h1 : p.2 / q ≤ (votes.map (fun p => p.2 / q)).sum :=
-      mem_le_sum _ (by
-        intro x hx
-        obtain ⟨p', hp', rfl⟩ := List.mem_map.mp hx
-        exact div_nonneg (hv p' hp') (le_of_lt hq)) _ (List.mem_map.mpr ⟨p, hp, rfl⟩)
-    rw [sum_map_div, hVq] at h1
-    have h2 := (rem_bounds (v := p.2) hq ae).1
-    have : ((wholeQ q ae p.2 : Int) : Rat) ≤ (((n : Int) + k : Int) : Rat) := by push_cast; linarith
-    exact_mod_cast this
-  · have : ((((n : Int) + k) - (votes.map (fun p => wholeQ q ae p.2)).sum : Int) : Rat) ≤ ((votes.length : Int) : Rat) := by
-      push_cast; linarith [hb.2]
-    exact_mod_cast this
+/-- when the whole-quota stage already fills (or over-fills) the house, `LargestRemainder` adds nothing:
+    it never asks `get_n_best` for a negative number of places (repair 6adacaa) -/
+theorem lr_no_remainder_seats (cfg : Cfg) (votes : Votes) (n : Nat) (prev maxS : IMap) (r : Sel)
+    (hq : cfg.quota (sumVals votes) n ≠ 0)
+    (hqd : quotaDistribute cfg votes n prev [] = .ok r) (hfull : (n : Int) ≤ sumK r + sumI prev) :
+    largestRemainder cfg votes n prev maxS = .ok r := by
+  unfold largestRemainder
+  rw [hqd]
+  simp only
+  rw [if_neg (fun hh => hq hh.1), sumK_addDict, sumK_prevAsSel]
+  have : ((n : Int) - (sumK r + sumI prev)).toNat = 0 := by omega
+  rw [this, getNBest_zero]
+  rfl
+
+/-- **Over-award policies carry over to `LargestRemainder`**: `'error'` raises … -/
+theorem lr_policy_error (cfg : Cfg) (votes : Votes) (n : Nat) (prev maxS : IMap) (hwf : WF votes prev)
+    (hq : 0 < cfg.quota (sumVals votes) n)
+    (hnb : NoCapBinds (cfg.quota (sumVals votes) n) cfg.acceptEqual n prev [] votes)
+    (hpol : cfg.onOver = .error) (hname : cfg.named = true)
+    (hgt : (n : Int) < totalAwarded (cfg.quota (sumVals votes) n) cfg.acceptEqual prev votes) :
+    largestRemainder cfg votes n prev maxS = .error .votingSystemError := by
+  unfold largestRemainder
+  rw [qd_policy_error cfg votes n prev [] hwf hq hnb hpol hname hgt]
+
+/-- … `'ignore'` keeps the surplus: exactly the whole quotas, and no remainder seat on top … -/
+theorem lr_policy_ignore (cfg : Cfg) (votes : Votes) (n : Nat) (prev maxS : IMap) (hwf : WF votes prev)
+    (hq : 0 < cfg.quota (sumVals votes) n)
+    (hnb : NoCapBinds (cfg.quota (sumVals votes) n) cfg.acceptEqual n prev [] votes)
+    (hpol : cfg.onOver = .ignore)
+    (hgt : (n : Int) < totalAwarded (cfg.quota (sumVals votes) n) cfg.acceptEqual prev votes) :
+    largestRemainder cfg votes n prev maxS =
+      .ok (wholeSel (cfg.quota (sumVals votes) n) cfg.acceptEqual prev votes) :=
+  lr_no_remainder_seats cfg votes n prev maxS _ (ne_of_gt hq)
+    (qd_policy_ignore cfg votes n prev [] hwf hq hnb hpol) (by unfold totalAwarded at hgt; omega)
+
+/-- … and `'subtract'` returns what its `QuotaDistributor` returns, which totals `n`. -/
+theorem lr_policy_subtract (cfg : Cfg) (votes : Votes) (n : Nat) (prev maxS : IMap) (hwf : WF votes prev)
+    (hq : 0 < cfg.quota (sumVals votes) n)
+    (hnb : NoCapBinds (cfg.quota (sumVals votes) n) cfg.acceptEqual n prev [] votes)
+    (hpol : cfg.onOver = .subtract)
+    (hgt : (n : Int) < totalAwarded (cfg.quota (sumVals votes) n) cfg.acceptEqual prev votes) :
+    largestRemainder cfg votes n prev maxS = quotaDistribute cfg votes n prev [] ∧
+      ∀ res, largestRemainder cfg votes n prev maxS = .ok res → sumK res + sumI prev = n := by
+  have key : largestRemainder cfg votes n prev maxS = quotaDistribute cfg votes n prev [] := by
+    cases hqd : quotaDistribute cfg votes n prev [] with
+    | error e => unfold largestRemainder; rw [hqd]
+    | ok r =>
+      have := qd_policy_subtract_total cfg votes n prev [] hwf hq hnb hpol hgt r hqd
+      exact lr_no_remainder_seats cfg votes n prev maxS r (ne_of_gt hq) hqd (by omega)
+  refine ⟨key, ?_⟩
+  intro res hres
+  rw [key] at hres
+  exact qd_policy_subtract_total cfg votes n prev [] hwf hq hnb hpol hgt res hres
+
+/-! ## 4. exact quotas fill the house; the Hare quota rule -/
 
 /-- **Total for exact quotas, proved rather than assumed.**  For a quota of the form `V / (n + k)` there are
     never more remainder seats than parties, so a plain election (no previous gains, no caps) whose whole-quota
@@ -451,98 +509,6 @@ theorem lr_total_hare (ae : Bool) (pol : OnOver) (votes : Votes) (n : Nat) (hwf 
   exact lr_total_exact ⟨Gen.Quota.hare, ae, pol, true⟩ 0 hquota votes n hwf hV hn hnb hle _
     (lr_whole_then_remainders _ votes n [] [] hplain)
 
-/-- the counting argument behind the quota rule, for any quota under which the shares add up to `n` -/
-private theorem quota_rule_aux (q : Rat) (ae : Bool) (votes : Votes) (n : Nat) (hwf : WF votes [])
-    (hq : 0 < q) (hVq : (votes.map (·.2)).sum / q = (n : Rat))
-    (hsum : (votes.map (fun p => wholeQ q ae p.2)).sum ≤ (n : Int))
-    (p : Cand × Rat) (hp : p ∈ votes) (seats : Int)
-    (hseats : seats = wholeQ q ae p.2 + (if Slot.cand p.1 ∈ lrBest q ae n [] [] votes then 1 else 0)) :
-    ⌊p.2 / q⌋ ≤ seats ∧ seats ≤ ⌈p.2 / q⌉ := by
-  have h0 : sumI [] = 0 := rfl
-  -- the remainder list
-  have hrems : lrRems q ae [] [] votes = votes.map (fun p => (p.1, p.2 / q - (wholeQ q ae p.2 : Rat))) :=
-    lrRems_plain hq ae votes hwf.votes_nonneg
-  have hremvals : (lrRems q ae [] [] votes).map (·.2) = votes.map (fun p => p.2 / q - (wholeQ q ae p.2 : Rat)) := by
-    rw [hrems, List.map_map]; rfl
-  have hnn : ∀ e ∈ lrRems q ae [] [] votes, 0 ≤ e.2 := by
-    intro e he
-    rw [hrems] at he
-    obtain ⟨p', _, rfl⟩ := List.mem_map.mp he
-    exact (rem_bounds hq ae).1
-  have hnd : ((lrRems q ae [] [] votes).map (·.1)).Nodup :=
-    List.Nodup.sublist (keys_lrRems_sublist _ _ _ _ _) hwf.keys_nodup
-  have hpe : (p.1, p.2 / q - (wholeQ q ae p.2 : Rat)) ∈ lrRems q ae [] [] votes := by
-    rw [hrems]; exact List.mem_map.mpr ⟨p, hp, rfl⟩
-  -- r = Σ remainders
-  have hr : ((remSeats q ae n [] votes : Int) : Rat) = ((lrRems q ae [] [] votes).map (·.2)).sum := by
-    rw [hremvals, sum_rems, hVq]
-    unfold remSeats totalAwarded
-    rw [totalAwarded_plain_aux hq _ _ hwf.votes_nonneg, h0]
-    push_cast; ring
-  have hr0 : 0 ≤ remSeats q ae n [] votes := by
-    unfold remSeats totalAwarded
-    rw [totalAwarded_plain_aux hq _ _ hwf.votes_nonneg, h0]; omega
-  have hrnat : (((remSeats q ae n [] votes).toNat : Nat) : Rat) = ((lrRems q ae [] [] votes).map (·.2)).sum := by
-    rw [← hr]
-    have : (((remSeats q ae n [] votes).toNat : Nat) : Int) = remSeats q ae n [] votes := Int.toNat_of_nonneg hr0
-    exact_mod_cast congrArg (fun z : Int => (z : Rat)) this
-  have hfl := Int.floor_le (p.2 / q)
-  have hflt := Int.lt_floor_add_one (p.2 / q)
-  by_cases hedge : p.2 = q ∧ ae = false
-  · -- exactly one quota, accept_equal off: no whole quota, but the largest possible remainder
-    have hw : wholeQ q ae p.2 = 0 := by unfold wholeQ; rw [if_pos hedge]
-    have hx : p.2 / q = 1 := by rw [hedge.1, div_self (ne_of_gt hq)]
-    have hone : cntGe (lrRems q ae [] [] votes) 1 ≤ (remSeats q ae n [] votes).toNat := by
-      have := cntGe_one_le_sum _ hnn
-      rw [← hrnat] at this
-      exact_mod_cast this
-    have hel : Slot.cand p.1 ∈ lrBest q ae n [] [] votes := by
-      have := cntGe_le_elected (lrRems q ae [] [] votes) (remSeats q ae n [] votes).toNat
-        (p.1, p.2 / q - (wholeQ q ae p.2 : Rat)) hpe (by rw [hw, hx]; simpa using hone)
-      exact this
-    rw [if_pos hel, hw] at hseats
-    rw [hseats, hx]
-    simp
-  · have hw : wholeQ q ae p.2 = ⌊p.2 / q⌋ := by unfold wholeQ; rw [if_neg hedge]
-    rw [hw] at hseats
-    constructor
-    · rw [hseats]; split <;> omega
-    · by_cases hint : ((⌊p.2 / q⌋ : Int) : Rat) = p.2 / q
-      · -- an integral share: remainder 0, which never wins a seat
-        have hnot : Slot.cand p.1 ∉ lrBest q ae n [] [] votes := by
-          intro hel
-          have hzero : (0 : Rat) ∈ (lrRems q ae [] [] votes).map (·.2) := by
-            refine List.mem_map.mpr ⟨_, hpe, ?_⟩
-            simp only [hw]; linarith
-          have hub := sum_unit_le_pred ((lrRems q ae [] [] votes).map (·.2)) (by
-            intro x hx
-            rw [hremvals] at hx
-            obtain ⟨p', _, rfl⟩ := List.mem_map.mp hx
-            exact rem_bounds hq ae) hzero
-          rw [← hrnat, List.length_map] at hub
-          have hlen1 : 1 ≤ (lrRems q ae [] [] votes).length := List.length_pos_of_mem hpe
-          have hlt : (remSeats q ae n [] votes).toNat < (lrRems q ae [] [] votes).length := by
-            have : (((remSeats q ae n [] votes).toNat : Nat) : Rat) < ((lrRems q ae [] [] votes).length : Rat) := by
-              linarith
-            exact_mod_cast this
-          have hc := elected_cntGe_le _ hnd _ hlt _ hpe hel
-          simp only [hw] at hc
-          have hz : p.2 / q - ((⌊p.2 / q⌋ : Int) : Rat) = 0 := by linarith
-          rw [hz, cntGe_zero_eq_length _ hnn] at hc
-          omega
-        rw [if_neg hnot] at hseats
-        rw [hseats]
-        simp only [add_zero]
-        exact Int.floor_le_ceil _
-      · have hlt : ((⌊p.2 / q⌋ : Int) : Rat) < p.2 / q := lt_of_le_of_ne hfl hint
-        have hc : ⌊p.2 / q⌋ + 1 ≤ ⌈p.2 / q⌉ := by
-          have := Int.le_ceil (p.2 / q)
-          have : ((⌊p.2 / q⌋ : Int) : Rat) < ((⌈p.2 / q⌉ : Int) : Rat) := lt_of_lt_of_le hlt this
-          have : ⌊p.2 / q⌋ < ⌈p.2 / q⌉ := by exact_mod_cast this
-          omega
-        rw [hseats]; split <;> omega
-
-
 /-- **Hare quota rule.**  In a plain Hare election every party receives its exact share `v·n/V` rounded down or
     rounded up — also on the `accept_equal = False` edge, where a party exactly on the quota loses its whole
     quota but is then first in line for a remainder seat. -/
@@ -572,7 +538,27 @@ theorem hare_quota_rule (ae : Bool) (pol : OnOver) (votes : Votes) (n : Nat) (hw
     have hV0 : sumVals votes ≠ 0 := ne_of_gt hV
     field_simp
   rw [hshare]
-  exact quota_rule_aux _ ae votes n hwf hq hVq hsum p hp _ hseats
+  -- r = Σ remainders
+  have hr0 : 0 ≤ remSeats (Gen.Quota.hare (sumVals votes) n) ae n [] votes := by
+    unfold remSeats totalAwarded
+    rw [totalAwarded_plain_aux hq _ _ hwf.votes_nonneg, h0]; omega
+  have hrnat : (((remSeats (Gen.Quota.hare (sumVals votes) n) ae n [] votes).toNat : Nat) : Rat) =
+      ((lrRems (Gen.Quota.hare (sumVals votes) n) ae [] [] votes).map (·.2)).sum := by
+    have hremvals : (lrRems (Gen.Quota.hare (sumVals votes) n) ae [] [] votes).map (·.2) =
+        votes.map (fun p => p.2 / Gen.Quota.hare (sumVals votes) n -
+          (wholeQ (Gen.Quota.hare (sumVals votes) n) ae p.2 : Rat)) := by
+      rw [lrRems_plain hq ae votes hwf.votes_nonneg, List.map_map]; rfl
+    have hr : ((remSeats (Gen.Quota.hare (sumVals votes) n) ae n [] votes : Int) : Rat) =
+        ((lrRems (Gen.Quota.hare (sumVals votes) n) ae [] [] votes).map (·.2)).sum := by
+      rw [hremvals, sum_rems, hVq]
+      unfold remSeats totalAwarded
+      rw [totalAwarded_plain_aux hq _ _ hwf.votes_nonneg, h0]
+      push_cast; ring
+    rw [← hr]
+    have : (((remSeats (Gen.Quota.hare (sumVals votes) n) ae n [] votes).toNat : Nat) : Int) =
+        remSeats (Gen.Quota.hare (sumVals votes) n) ae n [] votes := Int.toNat_of_nonneg hr0
+    exact_mod_cast congrArg (fun z : Int => (z : Rat)) this
+  exact quota_rule_aux _ ae votes hwf.keys_nodup hwf.votes_nonneg hq _ hrnat p hp _ hseats
 
 /-- **Droop never over-awards.**  With the Droop quota (or any quota `q > V/(n+1)`) a plain election always has a
     plain whole-quota stage: no party's whole quotas exceed the house and their sum does not either, so none of
@@ -680,14 +666,6 @@ def CapsRespected (q : Rat) (ae : Bool) (prev maxS : IMap) (votes : Votes) (res 
 instance (q : Rat) (ae : Bool) (prev maxS : IMap) (votes : Votes) (res : Sel) :
     Decidable (CapsRespected q ae prev maxS votes res) := by
   unfold CapsRespected; infer_instance
-
-private theorem getI_of_getCap {m : IMap} {c : Cand} {x : Int} (h : getCap m c = some x) (d : Int) :
-    getI m c d = x := by
-  unfold getCap at h
-  unfold getI
-  cases hf : m.find? (fun p => p.1 = c) with
-  | none => rw [hf] at h; cases h
-  | some y => rw [hf] at h; injection h
 
 /-- **Caps, partial (QuotaDistributor).**  When no cap binds on the whole quotas and the whole quotas are returned
     (no over-award, or policy `'ignore'`), every cap is respected and a party whose whole quotas reach its cap
